@@ -20,7 +20,7 @@ PROPERTY = 'C11'
 RULE = ('Lane inputs: for each monitor kind (dt_off, dt_on, ct_off, ct_on) a generated formula and data; every argument is deep-copied '
         'before evaluate()/each update() and compared structurally afterwards (bare variables under bounded future operators with '
         'bound >= trace length are forced: the padding path). Lane repeat: evaluate() on one offline object with data A, then B, then '
-        'A again: third result == first. Lane isolation: two or three specification objects of different kinds with a generated '
+        'A again: third result == first. Lane isolation_giant: two or three discrete-time objects whose bounded operators have windows of 200..700 samples, updated in turns. Lane isolation: two or three specification objects of different kinds with a generated '
         'interleaving of their calls; each object\'s outputs must equal those of a run in which it was alone. Lane hashseed: one batch '
         'of generated cases (multi-variable, sub-specifications, io declarations) is executed in sub-processes with PYTHONHASHSEED in '
         '{0,1,2,random} and the JSON outputs are compared byte-wise. Lane after_failure: an offline object with sub-specifications whose last '
@@ -614,7 +614,40 @@ def cand_after_failure(case):
             yield c
 
 
+@st.composite
+def isolation_giant_cases(draw, tier):
+    """Two or three discrete-time objects whose bounded operators have windows of 200..700 samples (sizes at which an
+    implementation may keep extra state), interleaved."""
+    from ..common import giant_cases
+    k = draw(st.sampled_from([2, 2, 3]))
+    objs = []
+    for _ in range(k):
+        kind = draw(st.sampled_from(['dt_on', 'dt_on', 'dt_off']))
+        c = draw(giant_cases(F.TUN_PAST + (F.TUN_FUT if kind == 'dt_off' else ()), lengths='long', max_width=700))
+        c['kind'] = kind
+        objs.append(c)
+    order = draw(st.lists(st.integers(0, k - 1), min_size=4, max_size=60))
+    # after the drawn prefix the objects take turns in blocks of a drawn length
+    return {'objects': objs, 'order': order, 'block': draw(st.sampled_from([1, 1, 3, 50]))}
+
+
+def check_isolation_giant(case):
+    case = dict(case)
+    k = len(case['objects'])
+    n = max(len(o['trace']['x']) for o in case['objects'])
+    tail = []
+    for r in range(0, n + 1, case['block']):
+        for i in range(k):
+            tail += [i] * case['block']
+    case['order'] = list(case['order']) + tail
+    v = check_isolation(case)
+    if v.status == 'pass':
+        v.nontrivial = True
+    return v
+
+
 LANES = [
+    Lane('isolation_giant', isolation_giant_cases, check_isolation_giant, 40, 400, None),
     Lane('explain_between', lambda tier: explain_between_cases(tier), check_explain_between, 1200, 15000, None),
     Lane('after_failure', lambda tier: after_failure_cases(tier), check_after_failure, 1500, 20000, cand_after_failure),
     Lane('inputs_chunked', lambda tier: chunked_inputs_cases(tier), check_inputs, 1500, 20000, cand_obj),
